@@ -5,6 +5,7 @@ import (
 	"testing"
 
 	"cosmossdk.io/math"
+	cryptotypes "github.com/cosmos/cosmos-sdk/crypto/types"
 	sdk "github.com/cosmos/cosmos-sdk/types"
 	banktypes "github.com/cosmos/cosmos-sdk/x/bank/types"
 	"pgregory.net/rapid"
@@ -57,7 +58,25 @@ func TestC09Rapid(t *testing.T) {
 						to = "bogus-recipient"
 					}
 					coin := coinOf(rapid.SampledFrom([]string{"uinit", "uusdc"}).Draw(rt, "denom"), int64(rapid.IntRange(0, 100000).Draw(rt, "amt")))
-					r, p := tc.l1Deposit(tc.users[rapid.IntRange(0, 4).Draw(rt, "from")], to, coin, nil)
+					var data []byte
+					if hk := rapid.IntRange(0, 9).Draw(rt, "hook"); hk < 4 && to != "bogus-recipient" {
+						// hooks signed by the recipient: a withdrawal inside the hook, optionally followed by a failing message
+						var rcpt henv.User
+						for _, u := range tc.users {
+							if u.Str == to {
+								rcpt = u
+							}
+						}
+						num, seq := accInfo(l2, rcpt)
+						l2d := tcL2Denom(tc, coin.Denom)
+						msgs := []sdk.Msg{opchildtypes.NewMsgInitiateTokenWithdrawal(rcpt.Str, "l1-target-of-the-hook", sdk.NewCoin(l2d, math.OneInt()))}
+						if hk%2 == 0 {
+							msgs = append(msgs, banktypes.NewMsgSend(rcpt.Addr, tc.users[0].Addr, sdk.NewCoins(sdk.NewCoin(l2d, math.NewInt(1<<50)))))
+						}
+						data = signTx(l2, msgs, []cryptotypes.PrivKey{rcpt.Priv}, []uint64{num}, []uint64{seq}, henv.L2ChainID)
+						c.Class("deposit-with-hook-withdrawal")
+					}
+					r, p := tc.l1Deposit(tc.users[rapid.IntRange(0, 4).Draw(rt, "from")], to, coin, data)
 					if p == nil {
 						rt.Fatalf("setup: L1 deposit rejected: %v", r.Err)
 					}
@@ -90,19 +109,33 @@ func TestC09Rapid(t *testing.T) {
 				if _, ok := baseOf[msg.Amount.Denom]; !ok {
 					baseOf[msg.Amount.Denom] = msg.BaseDenom
 				}
+				// every withdrawal announced by this message: the refund (if any) and withdrawals made by the hook;
+				// all of them share the one gap-free L2 sequence
 				ws := parseWithdrawalEvents(r.Events)
-				if len(ws) == 0 {
-					add(credited, msg.Amount.Denom, msg.Amount.Amount)
-				} else {
-					refunds++
-					c.Class("refund-withdrawal")
-					if len(ws) != 1 || ws[0].Seq != nextL2 {
-						rt.Fatalf("C09 violated at step %d: refund recorded under L2 sequence %v, expected the next sequence %d\nhistory:\n%s", i, ws, nextL2, strings.Join(tc.log, "\n"))
-					}
-					if ws[0].BaseDenom != baseOf[msg.Amount.Denom] {
-						rt.Fatalf("C09 violated at step %d: refund announced base denom %q, mapping says %q", i, ws[0].BaseDenom, baseOf[msg.Amount.Denom])
+				refunded := false
+				for _, x := range ws {
+					if x.Seq != nextL2 {
+						rt.Fatalf("C09 violated at step %d: a withdrawal was announced under L2 sequence %d, the next gap-free sequence is %d (announced: %+v)\nhistory:\n%s", i, x.Seq, nextL2, ws, strings.Join(tc.log, "\n"))
 					}
 					nextL2++
+					if x.BaseDenom != baseOf[x.Denom] {
+						rt.Fatalf("C09 violated at step %d: withdrawal announced base denom %q, mapping says %q", i, x.BaseDenom, baseOf[x.Denom])
+					}
+					if x.From == msg.To && x.To == msg.From && x.Denom == msg.Amount.Denom && !refunded {
+						refunded = true
+						refunds++
+						c.Class("refund-withdrawal")
+						if !x.Amount.Equal(msg.Amount.Amount) {
+							rt.Fatalf("C09 violated at step %d: refund of %s announced %s", i, msg.Amount, x.Amount)
+						}
+					} else {
+						add(withdrawn, x.Denom, x.Amount) // recorded by the hook on behalf of its signer
+						userWd++
+						c.Class("hook-withdrawal")
+					}
+				}
+				if !refunded {
+					add(credited, msg.Amount.Denom, msg.Amount.Amount)
 				}
 				_ = supplyBefore
 				tc.logf("%s(%s to=%s base=%s) -> refunds=%d", op, msg.Amount, short(msg.To), msg.BaseDenom, len(ws))
